@@ -59,7 +59,9 @@ func probeGoid() uint64 {
 	return atomic.LoadUint64(&maxGoid)
 }
 
-// burnTo starts and ends goroutines until the runtime's id counter has reached target (about 0.7 s per million)
+// burnTo starts and ends goroutines until the runtime's id counter has reached target (about 0.8 s per million).
+// The last goroutines of every batch read their id, so that the estimate follows the counter closely; near the
+// target the batches shrink (a batch of n uses a few more than n ids: every P that takes part takes ids by 16).
 func burnTo(target uint64) uint64 {
 	for {
 		id := probeGoid()
@@ -69,11 +71,17 @@ func burnTo(target uint64) uint64 {
 		n := target - id
 		if n > 20000 {
 			n = 20000
+		} else if n > 256 {
+			n -= n / 8
 		}
 		var wg sync.WaitGroup
 		wg.Add(int(n))
 		for i := uint64(0); i < n; i++ {
-			go wg.Done()
+			if i+200 >= n {
+				go func() { stackLine(); wg.Done() }()
+			} else {
+				go wg.Done()
+			}
 		}
 		wg.Wait()
 	}
@@ -258,25 +266,30 @@ func (r *runner) replayTLS(in interface{}) {
 	}
 }
 
-// highGids: the boundary 999999 -> 1000000 of the id numeral and the binary boundary 2^20 (thorough: also
-// 9999999 -> 10000000 and 2^23)
+// highGids: the boundaries 999999 -> 1000000 and 9999999 -> 10000000 of the id numeral and the binary boundaries
+// 2^20 and 2^23.  Field `decimal`: run the full program families there (else corpus and a few random programs).
 func (r *runner) highGids() {
 	type bound struct {
 		at      uint64
 		decimal bool
 	}
-	bounds := []bound{{1000000, true}, {1 << 20, false}}
+	// the last one takes about 8 s: its programs are run in the thorough tier only
+	bounds := []bound{{1000000, true}, {1 << 20, false}, {1 << 23, false}, {10000000, false}}
 	if r.cfg.Thorough() {
-		bounds = append(bounds, bound{1 << 23, false}, bound{10000000, true})
+		bounds[3].decimal = true
 	}
+	secs := map[string]float64{}
 	for _, b := range bounds {
+		t0 := time.Now()
 		// cross the boundary while sampling: goroutines alive at the same time on both sides of it
 		r.tlsCheck(96, int64(b.at-64), fmt.Sprintf("across-%d", b.at), "cases_gid_high")
 		r.tlsCheck(64, int64(b.at), fmt.Sprintf("above-%d", b.at), "cases_gid_high")
 		r.highGidPrograms(int64(b.at), b.decimal)
 		r.tlsCheck(64, int64(b.at), fmt.Sprintf("end-%d", b.at), "cases_gid_high")
 		r.checkResidents(fmt.Sprintf("after-%d", b.at))
+		secs[fmt.Sprint(b.at)] = float64(time.Since(t0).Milliseconds()) / 1000
 	}
+	r.res.Extra["highgid_seconds"] = secs
 	r.res.Extra["highest_goid"] = probeGoid()
 }
 
